@@ -106,3 +106,57 @@ func VerifCopyHeaders() {
 	}
 	gosym.Reach("end")
 }
+
+// VerifCopyHeadersSpellings: a cheap, concrete companion of VerifCopyHeaders - every sensitive name
+// in six spellings (canonical, lower, UPPER, aLtErNaTiNg, Word-UPPERTAIL, first letter lower) with
+// one or two values.  It decides nothing the symbolic job does not already decide on the unchanged
+// code; it exists so that a change which makes the symbolic job blow its budget is still caught.
+func VerifCopyHeadersSpellings() {
+	names := append(append([]string{}, zzCred...), zzHop...)
+	base := names[gosym.Choice("name", len(names))]
+	spell := func(s string, how int) string {
+		b := []byte(s)
+		wordStart := true
+		for i, c := range b {
+			isLetter := (c >= 'a' && c <= 'z') || (c >= 'A' && c <= 'Z')
+			up, lo := c&^0x20, c|0x20
+			if isLetter {
+				switch how {
+				case 1:
+					b[i] = lo
+				case 2:
+					b[i] = up
+				case 3:
+					if i%2 == 0 {
+						b[i] = lo
+					} else {
+						b[i] = up
+					}
+				case 4:
+					b[i] = up // Word-UPPERTAIL: every letter upper (first already is)
+					if wordStart {
+						b[i] = up
+					}
+				case 5:
+					if i == 0 {
+						b[i] = lo
+					}
+				}
+			}
+			wordStart = c == '-'
+		}
+		return string(b)
+	}
+	name := spell(base, gosym.Choice("spelling", 6))
+	vals := []string{"v1", "v2"}[:1+gosym.Choice("nvals", 2)]
+	orig := &http.Request{Method: "POST", URL: &url.URL{Path: "/x"}, Host: "olla.local", RemoteAddr: "192.0.2.7:4711",
+		Header: http.Header{"Content-Type": {"application/json"}, "X-Custom": {"keep"}}}
+	orig.Header[name] = vals
+	proxy := &http.Request{Method: "POST", URL: &url.URL{Path: "/x"}}
+	CopyHeaders(proxy, orig)
+	for k := range proxy.Header {
+		gosym.Assert(!(zzFoldsAny(k, zzCred) || zzFoldsAny(k, zzHop)), "no credential or hop-by-hop header reaches the backend, whatever its letter case")
+	}
+	gosym.Assert(len(proxy.Header["X-Custom"]) == 1 && proxy.Header["X-Custom"][0] == "keep", "ordinary client header unchanged")
+	gosym.Reach("end")
+}
